@@ -6,6 +6,13 @@
 //! the statement and the module documentation.  Every call is made with an explicit set of
 //! authorization entries; "X authorizes the call" == "an entry of X for exactly this invocation
 //! is attached".  After every step the complete enumeration state is compared with the model.
+//!
+//! Low-level clean-up helpers (harness Acl only): `remove_role_admin` / `remove_role_count` are
+//! `#[only_admin]` entry points around `remove_role_admin_no_auth` / `remove_role_accounts_count_no_auth`.
+//! Model: after remove_role_admin the role has no admin role (only the contract admin manages it; holders
+//! of the former admin role are refused by the ordinary grant/revoke oracle); remove_role_count succeeds
+//! iff admin-authorized and the member counter exists (role granted before, "the entries themselves
+//! remain" when emptied) and is 0; the enumeration oracle of `check_state` stays in force after both.
 
 use super::ftcore::{auth_strategy, AuthMode};
 use crate::engine::*;
@@ -137,6 +144,31 @@ pub enum Who {
     Acct(u16),
     /// the pending admin / owner (the last offeree when none)
     Pending,
+    /// a holder of the admin role that was REMOVED from the op's role by `remove_role_admin`
+    /// (preferably not the admin itself); any account when there is none
+    FormerRoleAdmin(u16),
+}
+
+/// Role selector of the low-level clean-up ops, resolved against the model when the op executes
+/// (falls back to `pick(sel, NR)` when no role is in the wanted state).
+#[derive(Clone, Debug, Serialize, Deserialize)]
+pub enum RSel {
+    Idx(u8),
+    /// a role that currently has an admin role / has none
+    WithAdminRole(u16),
+    WithoutAdminRole(u16),
+    /// a role that had members and lost all of them (member counter left at zero)
+    Emptied(u16),
+    /// a role with >= 1 member
+    Populated(u16),
+    /// a role without member counter (never granted, or counter removed and not granted since)
+    NoCounter(u16),
+    /// a role whose admin role was removed and not set again
+    AdminRemoved(u16),
+    /// a role whose member counter was removed and that was not granted since
+    CounterRemoved(u16),
+    /// a role with exactly one member (revoking it empties the role)
+    SingleMember(u16),
 }
 
 #[derive(Clone, Debug, Serialize, Deserialize)]
@@ -160,6 +192,12 @@ pub enum Op {
     /// guarded entry point `kind` (per target), `role` only steers the caller selector
     Probe { kind: u8, role: u8, caller: Who, also: Option<Who>, other: u16, auth: AuthMode },
     Advance { k: u32 },
+    /// harness Acl only: `#[only_admin] remove_role_admin(role)` -> `remove_role_admin_no_auth`
+    RemoveRoleAdmin { role: RSel, by: Who, auth: AuthMode },
+    /// harness Acl only: `#[only_admin] remove_role_count(role)` -> `remove_role_accounts_count_no_auth`
+    RemoveRoleCount { role: RSel, by: Who, auth: AuthMode },
+    /// grant_role (revoke_role when `revoke`) on a state-relatively selected role: the follow-up of the clean-up ops
+    GrantSel { role: RSel, account: u16, revoke: bool, caller: Who, auth: AuthMode },
 }
 
 #[derive(Clone, Debug, Serialize, Deserialize)]
@@ -226,7 +264,71 @@ fn admin_ops(w: u32) -> BoxedStrategy<Op> {
     .boxed()
 }
 
+/// low-level clean-up entry points of the harness Acl and their follow-up calls
+fn lowlevel_ops() -> BoxedStrategy<Op> {
+    let a = auth_strategy(6);
+    let idx = || (0u8..NR as u8).prop_map(RSel::Idx);
+    let s = || any::<u16>();
+    let r_admin = prop_oneof![6 => s().prop_map(RSel::WithAdminRole), 2 => s().prop_map(RSel::WithoutAdminRole), 1 => s().prop_map(RSel::AdminRemoved), 1 => idx()];
+    let r_count = prop_oneof![6 => s().prop_map(RSel::Emptied), 2 => s().prop_map(RSel::Populated), 2 => s().prop_map(RSel::NoCounter), 1 => s().prop_map(RSel::CounterRemoved), 1 => idx()];
+    // grant / revoke on a role whose admin role was removed: by a holder of the former admin role, the admin, others
+    let r_follow = prop_oneof![8 => s().prop_map(RSel::AdminRemoved), 1 => s().prop_map(RSel::CounterRemoved), 1 => idx()];
+    let follow_caller = prop_oneof![5 => s().prop_map(Who::FormerRoleAdmin), 4 => Just(Who::Admin), 1 => Just(Who::Stranger), 1 => s().prop_map(Who::Member)];
+    let mostly_admin = || prop_oneof![6 => Just(Who::Admin), 1 => s().prop_map(|x| Who::RoleAdmin(0, x)), 1 => Just(Who::Stranger)];
+    prop_oneof![
+        3 => (r_admin, holder_who_strategy(), a.clone()).prop_map(|(role, by, auth)| Op::RemoveRoleAdmin { role, by, auth }),
+        4 => (r_count, holder_who_strategy(), a.clone()).prop_map(|(role, by, auth)| Op::RemoveRoleCount { role, by, auth }),
+        3 => (r_follow, s(), proptest::bool::weighted(0.3), follow_caller, a.clone())
+            .prop_map(|(role, account, revoke, caller, auth)| Op::GrantSel { role, account, revoke, caller, auth }),
+        // the role is granted again after its counter was removed
+        2 => (s().prop_map(RSel::CounterRemoved), s(), mostly_admin(), auth_strategy(12))
+            .prop_map(|(role, account, caller, auth)| Op::GrantSel { role, account, revoke: false, caller, auth }),
+        // the last member is revoked: the counter stays behind at zero
+        3 => (s().prop_map(RSel::SingleMember), s(), mostly_admin(), auth_strategy(12))
+            .prop_map(|(role, account, caller, auth)| Op::GrantSel { role, account, revoke: true, caller, auth }),
+    ]
+    .boxed()
+}
+
+/// short correlated sequences (every op is still an ordinary, individually checked op with its own auth mode):
+/// the life cycle of a member counter and of an admin-role assignment
+fn lowlevel_scripts() -> BoxedStrategy<Vec<Op>> {
+    let s = || any::<u16>();
+    let au = || auth_strategy(14);
+    let mostly_admin = || prop_oneof![8 => Just(Who::Admin), 1 => Just(Who::Stranger)];
+    let counter = (
+        (s(), au()).prop_map(|(x, auth)| Op::GrantSel { role: RSel::SingleMember(x), account: x, revoke: true, caller: Who::Admin, auth }),
+        (s(), mostly_admin(), au()).prop_map(|(x, by, auth)| Op::RemoveRoleCount { role: RSel::Emptied(x), by, auth }),
+        (s(), s(), mostly_admin(), au()).prop_map(|(x, account, caller, auth)| Op::GrantSel { role: RSel::CounterRemoved(x), account, revoke: false, caller, auth }),
+        proptest::option::weighted(0.5, (s(), au()).prop_map(|(x, auth)| Op::RemoveRoleCount { role: RSel::CounterRemoved(x), by: Who::Admin, auth })),
+    )
+        .prop_map(|(a, b, c, d)| [Some(a), Some(b), Some(c), d].into_iter().flatten().collect::<Vec<Op>>());
+    let admin_role = (
+        (s(), mostly_admin(), au()).prop_map(|(x, by, auth)| Op::RemoveRoleAdmin { role: RSel::WithAdminRole(x), by, auth }),
+        (s(), s(), any::<bool>(), s(), au())
+            .prop_map(|(x, account, revoke, c, auth)| Op::GrantSel { role: RSel::AdminRemoved(x), account, revoke, caller: Who::FormerRoleAdmin(c), auth }),
+        (s(), s(), any::<bool>(), au()).prop_map(|(x, account, revoke, auth)| Op::GrantSel { role: RSel::AdminRemoved(x), account, revoke, caller: Who::Admin, auth }),
+    )
+        .prop_map(|(a, b, c)| vec![a, b, c]);
+    prop_oneof![3 => counter, 2 => admin_role].boxed()
+}
+
+/// history items of the harness Acl: mostly single ops of the original mix (low weight for the clean-up
+/// entry points: the classes of the original histories keep their floors)
+fn acl_item_strategy() -> BoxedStrategy<Vec<Op>> {
+    prop_oneof![
+        90 => base_op_strategy(Target::Acl).prop_map(|o| vec![o]),
+        8 => lowlevel_ops().prop_map(|o| vec![o]),
+        2 => lowlevel_scripts(),
+    ]
+    .boxed()
+}
+
 fn op_strategy(target: Target) -> BoxedStrategy<Op> {
+    base_op_strategy(target)
+}
+
+fn base_op_strategy(target: Target) -> BoxedStrategy<Op> {
     let a = auth_strategy(6);
     let role = 0u8..NR as u8;
     if target == Target::Ownable {
@@ -258,7 +360,18 @@ fn strategy_for(target: Target, tier: Tier) -> BoxedStrategy<Case> {
     let max_ops = tier.pick(40usize, 80usize);
     let ra = proptest::collection::vec(proptest::option::weighted(0.6, 0u8..NR as u8), NR);
     let mem = proptest::collection::vec(prop_oneof![1 => Just(0u8), 3 => 0u8..(1 << NA)], NR);
-    (100u32..5000, proptest::bool::weighted(0.15), ra, mem, proptest::collection::vec(op_strategy(target), 0..=max_ops))
+    let ops: BoxedStrategy<Vec<Op>> = if target == Target::Acl {
+        proptest::collection::vec(acl_item_strategy(), 0..=max_ops)
+            .prop_map(move |v| {
+                let mut o: Vec<Op> = v.into_iter().flatten().collect();
+                o.truncate(max_ops);
+                o
+            })
+            .boxed()
+    } else {
+        proptest::collection::vec(op_strategy(target), 0..=max_ops).boxed()
+    };
+    (100u32..5000, proptest::bool::weighted(0.15), ra, mem, ops)
         .prop_map(move |(seq, small_ttl, role_admin0, members0, ops)| {
             if target == Target::Ownable {
                 Case { target, seq, small_ttl, role_admin0: vec![], members0: vec![], ops }
@@ -336,6 +449,13 @@ struct Model {
     next_token: u32,
     /// successful probes (Acl counter / ownable counter)
     counter: u32,
+    /// the role's member counter entry exists: created by the first grant, "the entries themselves
+    /// remain" when the role is emptied (module docs), removed by remove_role_count
+    count_entry: Vec<bool>,
+    /// counter removed by remove_role_count and the role not granted since
+    count_removed: Vec<bool>,
+    /// admin role removed from the role by remove_role_admin (and none set since)
+    former_admin: Vec<Option<usize>>,
 }
 
 #[derive(Clone, Debug, PartialEq, Eq)]
@@ -549,6 +669,18 @@ fn resolve(m: &Model, who: &Who, role: Option<usize>) -> usize {
         Who::Acct(s) => pick(*s, all),
         Who::Stranger => (0..all).rev().find(|a| !has_standing(m, *a)).unwrap_or(NA),
         Who::Member(s) => role.and_then(|r| nth(&m.members[r], *s)).unwrap_or_else(|| pick(*s, all)),
+        Who::FormerRoleAdmin(s) => role
+            .and_then(|r| m.former_admin.get(r).copied().flatten())
+            .and_then(|fr| {
+                let mut set = m.members[fr].clone();
+                if let Some(a) = m.admin {
+                    if set.len() > 1 {
+                        set.remove(&a);
+                    }
+                }
+                nth(&set, *s)
+            })
+            .unwrap_or_else(|| pick(*s, all)),
         Who::RoleAdmin(depth, s) => {
             let mut r = role;
             for _ in 0..=*depth {
@@ -566,6 +698,28 @@ fn resolve(m: &Model, who: &Who, role: Option<usize>) -> usize {
             })
             .unwrap_or_else(|| pick(*s, all))
         }
+    }
+}
+
+fn resolve_rsel(m: &Model, sel: &RSel) -> usize {
+    let by = |s: &u16, f: &dyn Fn(usize) -> bool| -> usize {
+        let c: Vec<usize> = (0..NR).filter(|r| f(*r)).collect();
+        if c.is_empty() {
+            pick(*s, NR)
+        } else {
+            c[pick(*s, c.len())]
+        }
+    };
+    match sel {
+        RSel::Idx(i) => (*i as usize).min(NR - 1),
+        RSel::WithAdminRole(s) => by(s, &|r| m.role_admin[r].is_some()),
+        RSel::WithoutAdminRole(s) => by(s, &|r| m.role_admin[r].is_none()),
+        RSel::Emptied(s) => by(s, &|r| m.count_entry[r] && m.members[r].is_empty()),
+        RSel::Populated(s) => by(s, &|r| !m.members[r].is_empty()),
+        RSel::NoCounter(s) => by(s, &|r| !m.count_entry[r]),
+        RSel::AdminRemoved(s) => by(s, &|r| m.former_admin[r].is_some()),
+        RSel::CounterRemoved(s) => by(s, &|r| m.count_removed[r]),
+        RSel::SingleMember(s) => by(s, &|r| m.members[r].len() == 1),
     }
 }
 
@@ -613,7 +767,15 @@ pub fn run(case: &Case, ctx: &mut Ctx) -> R {
     let w = World::setup(case.target, case.seq, max_ttl);
     let e = &w.e;
     let nr = if case.target == Target::Ownable { 0 } else { NR };
-    let mut m = Model { admin: Some(0), members: vec![BTreeSet::new(); nr], role_admin: vec![None; nr], ..Default::default() };
+    let mut m = Model {
+        admin: Some(0),
+        members: vec![BTreeSet::new(); nr],
+        role_admin: vec![None; nr],
+        count_entry: vec![false; nr],
+        count_removed: vec![false; nr],
+        former_admin: vec![None; nr],
+        ..Default::default()
+    };
     let mut d = dump(&w)?;
     if case.target == Target::Ownable {
         m.counter = 0;
@@ -643,9 +805,27 @@ pub fn run(case: &Case, ctx: &mut Ctx) -> R {
     let mut swap_pop = false;
     let mut role_admin_grant = false;
     let mut rejected_privileged = false;
+    // low-level clean-up entry points (harness Acl): successful / refused clean-up, later grant/revoke attempt on a cleaned role
+    let (mut ll_ok, mut ll_refused, mut ll_followup) = (false, false, false);
 
     for (step, op) in ops.iter().enumerate() {
         let in_setup = step < n_setup;
+        if matches!(op, Op::RemoveRoleAdmin { .. } | Op::RemoveRoleCount { .. } | Op::GrantSel { .. }) && case.target != Target::Acl {
+            continue; // only the harness Acl exposes the clean-up entry points
+        }
+        // GrantSel is an ordinary grant / revoke on a role chosen relative to the model
+        let lowered: Op;
+        let op: &Op = if let Op::GrantSel { role, account, revoke, caller, auth } = op {
+            let r = resolve_rsel(&m, role) as u8;
+            lowered = if *revoke {
+                Op::Revoke { role: r, account: Who::Member(*account), caller: caller.clone(), also: None, auth: auth.clone() }
+            } else {
+                Op::Grant { role: r, account: *account, caller: caller.clone(), also: None, auth: auth.clone() }
+            };
+            &lowered
+        } else {
+            op
+        };
         if let Op::Advance { k } = op {
             envx::advance(e, *k);
             d = dump(&w)?;
@@ -663,12 +843,21 @@ pub fn run(case: &Case, ctx: &mut Ctx) -> R {
             Accept,
             RenounceAdmin,
             Probe(Option<(u32, Option<usize>)>),
+            RemoveRoleAdmin(usize),
+            RemoveRoleCount(usize),
         }
         let mut touched_role: Option<usize> = None;
         let mut touched_acct: Option<usize> = None;
         // closure deciding authorization from the attached entries is applied after exec; so first build the call
         let (cl, mode, kind_name): (Call, &AuthMode, &'static str) = match op {
-            Op::Advance { .. } => unreachable!(),
+            Op::Advance { .. } | Op::GrantSel { .. } => unreachable!(),
+            Op::RemoveRoleAdmin { role, by, auth } | Op::RemoveRoleCount { role, by, auth } => {
+                let r = resolve_rsel(&m, role);
+                let s = resolve(&m, by, Some(r));
+                touched_role = Some(r);
+                let f = if matches!(op, Op::RemoveRoleAdmin { .. }) { "remove_role_admin" } else { "remove_role_count" };
+                (Call { func: f, args: vec![w.roles[r].clone().into_val(e)], signers: vec![addr(s)] }, auth, f)
+            }
             Op::Grant { role, account, caller, auth, .. } => {
                 if nr == 0 {
                     continue;
@@ -839,7 +1028,21 @@ pub fn run(case: &Case, ctx: &mut Ctx) -> R {
                     }
                 }
             }
-            Op::Advance { .. } => unreachable!(),
+            Op::RemoveRoleAdmin { .. } => {
+                // documented: "Removes the admin role for a specified role"; what happens when none is set is
+                // not documented (counted, not asserted)
+                let r = touched_role.unwrap();
+                let must = if !admin_authd { Some(false) } else if m.role_admin[r].is_some() { Some(true) } else { None };
+                (Pred { may: admin_authd, must }, Effect::RemoveRoleAdmin(r))
+            }
+            Op::RemoveRoleCount { .. } => {
+                // documented: removes the counter "when cleaning up unused roles with zero members";
+                // the entry exists once the role was granted and remains (at 0) when the role is emptied
+                let r = touched_role.unwrap();
+                let okc = admin_authd && m.count_entry[r] && m.members[r].is_empty();
+                (Pred { may: admin_authd, must: Some(okc) }, Effect::RemoveRoleCount(r))
+            }
+            Op::Advance { .. } | Op::GrantSel { .. } => unreachable!(),
         };
         if case.target == Target::Nft && cl.func == "mint" {
             m.next_token += 1; // every attempt uses a fresh id
@@ -854,8 +1057,26 @@ pub fn run(case: &Case, ctx: &mut Ctx) -> R {
             "accept" => "accept_admin_transfer".to_string(),
             x => x.to_string(),
         };
+        if let (true, true, Effect::RemoveRoleCount(r)) = (ok, pred.may, &effect) {
+            ensure!(m.members[*r].is_empty(), "C06/remove_role_count/nonzero-count-removed", "{what}: the member counter of a role with members {:?} was removed", m.members[*r]);
+            ensure!(m.count_entry[*r], "C06/remove_role_count/absent-counter-accepted", "{what}: succeeded although the role has no member counter (never granted / already removed)");
+        }
+        if matches!(op, Op::Grant { .. } | Op::Revoke { .. }) {
+            let r = touched_role.unwrap();
+            if (m.former_admin[r].is_some() && m.role_admin[r].is_none()) || m.count_removed[r] {
+                ll_followup = true;
+            }
+            if let (Some(fa), None, Some(c)) = (m.former_admin[r], m.role_admin[r], w.idx(&cl.signers[0])) {
+                if m.members[fa].contains(&c) && m.admin != Some(c) && authd(c) {
+                    // a holder of the removed admin role authorizes: the model forbids success (checked below)
+                    ctx.class(if ok { "former_role_admin_accepted" } else { "former_role_admin_refused" });
+                } else if m.admin == Some(c) && ok {
+                    ctx.class("admin_manages_role_without_admin_role");
+                }
+            }
+        }
         if ok && !pred.may {
-            let clause = if m.renounced && matches!(op, Op::SetRoleAdmin { .. } | Op::TransferAdmin { .. } | Op::AcceptAdmin { .. } | Op::RenounceAdmin { .. })
+            let clause = if m.renounced && matches!(op, Op::SetRoleAdmin { .. } | Op::TransferAdmin { .. } | Op::AcceptAdmin { .. } | Op::RenounceAdmin { .. } | Op::RemoveRoleAdmin { .. } | Op::RemoveRoleCount { .. })
                 || (m.renounced && matches!(op, Op::Probe{kind, ..} if guard(case.target, *kind).roles.is_none()))
             {
                 "succeeded-after-renounce"
@@ -885,9 +1106,17 @@ pub fn run(case: &Case, ctx: &mut Ctx) -> R {
             match effect {
                 Effect::Grant(r, a) => {
                     let c = w.idx(&cl.signers[0]).unwrap();
-                    if m.members[r].insert(a) && m.admin != Some(c) {
+                    let new = m.members[r].insert(a);
+                    if new && m.admin != Some(c) {
                         role_admin_grant = true;
                         ctx.class("grant_by_role_admin");
+                    }
+                    if new {
+                        m.count_entry[r] = true;
+                        if m.count_removed[r] {
+                            m.count_removed[r] = false;
+                            ctx.class("regrant_after_count_removed");
+                        }
                     }
                 }
                 Effect::Remove(r, a) => {
@@ -908,6 +1137,7 @@ pub fn run(case: &Case, ctx: &mut Ctx) -> R {
                 }
                 Effect::SetRoleAdmin(r, ar) => {
                     m.role_admin[r] = Some(ar);
+                    m.former_admin[r] = None;
                     if ar == r {
                         ctx.class("self_admin_role");
                     } else if m.role_admin[ar] == Some(r) {
@@ -931,6 +1161,25 @@ pub fn run(case: &Case, ctx: &mut Ctx) -> R {
                     m.pending = None;
                     m.renounced = true;
                     ctx.class("admin_renounced");
+                }
+                Effect::RemoveRoleAdmin(r) => {
+                    ll_ok = true;
+                    match m.role_admin[r].take() {
+                        Some(ar) => {
+                            m.former_admin[r] = Some(ar);
+                            ctx.class("remove_role_admin_ok");
+                            if !m.members[ar].is_empty() {
+                                ctx.class("remove_role_admin_ok_with_holders");
+                            }
+                        }
+                        None => ctx.class("remove_role_admin_absent_accepted"),
+                    }
+                }
+                Effect::RemoveRoleCount(r) => {
+                    ll_ok = true;
+                    m.count_entry[r] = false;
+                    m.count_removed[r] = true;
+                    ctx.class("remove_role_count_ok");
                 }
                 Effect::Probe(tok) => {
                     ctx.class("probe_passed");
@@ -958,6 +1207,18 @@ pub fn run(case: &Case, ctx: &mut Ctx) -> R {
             if m.renounced {
                 ctx.class("probe_refused_after_renounce");
             }
+        } else if let Effect::RemoveRoleAdmin(r) = effect {
+            ll_refused = true;
+            ctx.class(if !admin_authd { "remove_role_admin_refused_unauth" } else if m.role_admin[r].is_none() { "remove_role_admin_absent_refused" } else { "remove_role_admin_refused_other" });
+        } else if let Effect::RemoveRoleCount(r) = effect {
+            ll_refused = true;
+            ctx.class(if !admin_authd {
+                "remove_role_count_refused_unauth"
+            } else if !m.members[r].is_empty() {
+                "remove_role_count_refused_nonzero"
+            } else {
+                "remove_role_count_refused_absent"
+            });
         }
         d = dump(&w)?;
         if !ok {
@@ -984,6 +1245,9 @@ pub fn run(case: &Case, ctx: &mut Ctx) -> R {
     if nontrivial {
         ctx.nontrivial = true;
         ctx.class("nontrivial");
+    }
+    if ll_ok && ll_refused && ll_followup {
+        ctx.class("lowlevel_nontrivial");
     }
     Ok(())
 }
@@ -1065,7 +1329,10 @@ pub fn property() -> Property {
         id: "C06",
         rule: "case = (target in {harness Acl, example nft-access-control, example ownable}, start ledger, initial role-admin wiring and memberships applied through the \
                public entry points, history of <=40 (thorough 80) ops grant/revoke/renounce_role/set_role_admin/transfer_admin/accept/renounce_admin/guarded probe/advance over 4 roles and \
-               5+1 accounts, caller by model-relative selector, auth mode Exact/Drop/Swap/Tamper/Surplus); non-trivial = >=1 successful revoke/renounce of a non-last index, >=1 successful \
+               5+1 accounts, caller by model-relative selector, auth mode Exact/Drop/Swap/Tamper/Surplus; harness Acl only, ~10% of the history items: the admin-guarded clean-up entry points \
+               remove_role_admin / remove_role_count (wiring remove_role_admin_no_auth / remove_role_accounts_count_no_auth) on state-relative roles (with/without admin role, emptied, populated, \
+               without counter), follow-up grant/revoke by a holder of the removed admin role / the admin, re-grant after counter removal, singly or as short scripts; \
+               lowlevel_nontrivial = >=1 successful and >=1 refused clean-up call and >=1 later grant/revoke attempt on a cleaned role); non-trivial = >=1 successful revoke/renounce of a non-last index, >=1 successful \
                grant by a role-admin holder who is not the admin and >=1 rejected privileged call (ownable: >=1 passed and >=1 rejected owner-guarded call; stacked-guards: only_owner / only_admin / only_role stacked with when_not_paused / when_paused in both orders on a harness contract, >=2 calls refused for a wrong or unauthorized principal while the pause gate was open and >=1 passed); distinct = distinct serialised case",
         subs: vec![
             target_sub!("acl", Target::Acl, 1200, 20000),
@@ -1074,6 +1341,8 @@ pub fn property() -> Property {
             Box::new(Fixed { name: "max-roles", slabs: max_roles_slabs, run: run_max_roles }),
             // the guard macros stacked with the pause guards, in both orders: the principal half of the C16 harness contract
             gen_sub::<super::c16::SgCase>("stacked-guards", 600, 12000, super::c16::sg_strategy_pub, run_stacked_principal),
+            // every guarded entry point of every linkable example contract x six authorization variants (props/c06b.rs)
+            gen_sub::<super::c06b::GCase>("example-guards", 1200, 24000, super::c06b::strategy, super::c06b::run),
         ],
         floors: vec![
             ("nontrivial", 55, 550),
@@ -1088,11 +1357,26 @@ pub fn property() -> Property {
             ("probe_refused_after_renounce", 200, 2000),
             ("auth_defective", 2000, 20000),
             ("max_roles_boundary", 1, 1),
-        ],
+            // low-level clean-up entry points of the harness Acl (measured over seeds 0..3, quick scale 9)
+            ("lowlevel_nontrivial", 15, 150),
+            ("remove_role_admin_ok", 18, 180),
+            ("remove_role_admin_refused_unauth", 30, 300),
+            ("former_role_admin_refused", 8, 80),
+            ("admin_manages_role_without_admin_role", 13, 130),
+            ("remove_role_count_ok", 9, 90),
+            ("remove_role_count_refused_nonzero", 24, 240),
+            ("remove_role_count_refused_absent", 9, 90),
+            ("remove_role_count_refused_unauth", 45, 450),
+            ("regrant_after_count_removed", 5, 50),
+        ]
+        .into_iter()
+        .chain(super::c06b::floors())
+        .collect(),
         assumptions: vec![
             "Soroban native test host (storage, rollback of failed invocations, authorization matching) is trusted",
             "an address authorizes a call iff an authorization entry of that address for exactly this invocation is attached (accept-all account contracts)",
             "#[has_role] / #[has_any_role] check membership without require_auth, as documented; lifetime rules of admin/ownership offers are C07's subject (safety only here)",
+            "remove_role_count: a role's member counter exists from its first grant on and remains (at 0) when the role is emptied (module docs); removal succeeds iff the admin authorizes and the counter exists and is 0. remove_role_admin when no admin role is set: outcome not documented, counted only",
         ],
     }
 }
